@@ -241,6 +241,32 @@ def num_items(rng, pattern, general):
     return items
 
 
+def float_items(rng, pattern):
+    """floating-point matrices that are CLOSE to special values without being them (tiny phases / rotations / perturbations of the
+    identity, of a permutation), mixed with generic ones: "all complex matrix values" includes them, and an approximate identity
+    or zero test (1e-5 .. 1e-8) anywhere in the backend or the optimizer is visible at 1e-12 relative"""
+    nr = np.random.default_rng(rng.randrange(2 ** 32))
+    items = []
+    for q in pattern:
+        d = 4 if (len(q) == 2 and q[1] != -1) else 2
+        eps = float(nr.choice([1e-4, 1e-6, 1e-7, 3e-9])); k = int(nr.integers(4))
+        if k == 0:
+            m = np.diag(np.exp(1j * eps * np.arange(d))).astype(complex)
+        elif k == 1:
+            m = np.eye(d) + eps * (nr.normal(size=(d, d)) + 1j * nr.normal(size=(d, d)))
+        elif k == 2:
+            m = np.eye(d, dtype=complex); m[0, 1] = -eps; m[1, 0] = eps
+        else:
+            m = nr.normal(size=(d, d)) + 1j * nr.normal(size=(d, d))
+        items.append([m, list(q)])
+    return items
+
+
+def float_close(a, b):
+    a, b = np.asarray(a, complex), np.asarray(b, complex)
+    return a.shape == b.shape and float(np.abs(a - b).max()) <= 1e-12 * max(1.0, float(np.abs(b).max()))
+
+
 def apply_seq(n, items, psi):
     """sequential reference by np.tensordot (independent of kron / sparse construction); psi has shape (2,)*n + batch"""
     psi = psi.copy()
@@ -308,6 +334,17 @@ def oracle_optimizer(co, rng, n, pattern, level, general=None, probe_cols=None):
     b = apply_seq(n, out, psi)
     if not np.array_equal(a, b):
         return "optimised list is a different linear operator"
+    if n <= 6:
+        import copy as _c
+        fitems = float_items(rng, pattern); fref = _c.deepcopy(fitems)
+        try:
+            fout = co.Optimizer(level_opt=level, circ_list=fitems, qubit_list=list(range(n))).optimize()
+        except Exception as e:  # noqa
+            return "optimizer raised %s on a well-formed list of floating-point matrices" % type(e).__name__
+        if len(fout) > len(pattern) or out_wellformed(n, fout):
+            return "output on floating-point matrices is longer than the input or malformed"
+        if not float_close(apply_seq(n, fout, psi), apply_seq(n, fref, psi)):
+            return "optimised list is a different linear operator on floating-point matrices with near-identity entries (beyond 1e-12 relative)"
     return None
 
 
@@ -331,4 +368,12 @@ def oracle_backend(be, rng, n, pattern, general=None):
     ref = apply_seq(n, ref_items, psi_keep.reshape((2,) * n)).reshape(d)
     if not np.array_equal(out, ref):
         return "statevector differs from sequential application"
+    fitems = float_items(rng, pattern); fref = copy.deepcopy(fitems)
+    fpsi = np.array([complex(rng.gauss(0, 1), rng.gauss(0, 1)) for _ in range(d)])
+    try:
+        fout = np.asarray(be.BinaryBackend(nqubit=n).statevector(fitems, fpsi.copy()))
+    except Exception as e:  # noqa
+        return "BinaryBackend.statevector raised %s on a well-formed list of floating-point matrices" % type(e).__name__
+    if not float_close(fout.reshape(-1), apply_seq(n, fref, fpsi.reshape((2,) * n)).reshape(d)):
+        return "statevector differs from sequential application on floating-point matrices with near-identity entries (beyond 1e-12 relative)"
     return None
